@@ -74,6 +74,28 @@ static void observe(const sk_t& s, Out& o) {
   }
 }
 
+// one item through the update() overload selected by kind (same numbering as drv_hll.cpp / HllDefs.item_bytes):
+// 0 uint64, 1 int64, 2 std::string, 3 double bits, 4 float bits, 5 int32, 6 uint32, 7 int16, 8 uint16, 9 int8, 10 uint8,
+// 11 (const void*, size_t).  hll_sketch and hll_union have the same overload set.
+template<typename S> static void update_item(S& s, int kind, const Line& t, size_t from) {
+  I a0 = t.size() > from ? t[from] : 0;
+  switch (kind) {
+  case 0: s.update((uint64_t)a0); break;
+  case 1: s.update((int64_t)a0); break;
+  case 2: s.update(vh::bytes_of(t, from)); break;
+  case 3: s.update(vh::bitsd(a0)); break;
+  case 4: s.update(vh::bitsf(a0)); break;
+  case 5: s.update((int32_t)(uint32_t)a0); break;
+  case 6: s.update((uint32_t)a0); break;
+  case 7: s.update((int16_t)(uint16_t)a0); break;
+  case 8: s.update((uint16_t)a0); break;
+  case 9: s.update((int8_t)(uint8_t)a0); break;
+  case 10: s.update((uint8_t)a0); break;
+  case 11: { std::string b = vh::bytes_of(t, from); s.update((const void*)b.data(), b.size()); break; }
+  default: throw std::invalid_argument("bad item kind");
+  }
+}
+
 static double call_getter(const un_t& u, int g) {
   switch (g) {
   case 0: return u.get_estimate();
@@ -90,6 +112,12 @@ static void handler(const Line& t, Out& o) {
     if (ty < 0 || ty > 2) { o.R(-2); break; }
     std::unique_ptr<sk_t> p(new sk_t((uint8_t)t.at(2), ty_of(t.at(3)), t.at(4) != 0));
     regs[(long)t.at(1)] = std::move(p);
+    o.R(1); break; }
+  case 2: { // one real item into a sketch through the overload `kind`: 2 r kind args
+    update_item(get(t.at(1)), (int)t.at(2), t, 3);
+    o.R(1); break; }
+  case 20: { // one real item into the union through hll_union's overload `kind`: 20 u kind args
+    update_item(getu(t.at(1)), (int)t.at(2), t, 3);
     o.R(1); break; }
   case 3: { // raw coupons into a sketch: 3 r c*
     sk_t& s = get(t.at(1));
